@@ -66,6 +66,56 @@ fn widened_windows(rounds: u8, p0_us: u16, p1_us: u16, out: &mut Outcome) {
             return;
         }
     }
+    // Second half: the same with another thread calling hot_reload all the time, so that the notification of b's
+    // change is usually examined by *its* request, before the message that registers b (queued behind that
+    // request) was seen: the entry has to be remembered until then.
+    let cache = &cache;
+    let stop = std::sync::atomic::AtomicBool::new(false);
+    let lost = std::thread::scope(|s| {
+        s.spawn(|| {
+            while !stop.load(std::sync::atomic::Ordering::SeqCst) {
+                cache.hot_reload();
+            }
+        });
+        let mut lost = None;
+        for round in 0..rounds as u32 * 4 {
+            let kb = format!("c{round}");
+            put(&kb, 0);
+            if round % 8 == 0 {
+                verif::set_schedule_hook(Some(std::sync::Arc::new(move |point| {
+                    std::thread::sleep(std::time::Duration::from_micros(if point == 0 { p0_us } else { p1_us } as u64 / 4));
+                })));
+            } else if round % 8 == 4 {
+                verif::set_schedule_hook(None);
+            }
+            let Ok(b) = cache.load::<Ver>(&kb) else { break };
+            put(&kb, 1);
+            src.send(&OwnedEntry::File(kb.clone(), "v".into()));
+            cache.hot_reload();
+            let b_first = b.read().0;
+            let mut calls = 0;
+            while b.read().0 != 1 && calls < 300 {
+                cache.hot_reload();
+                calls += 1;
+                std::thread::sleep(std::time::Duration::from_micros(500));
+            }
+            if b.read().0 != 1 {
+                lost = Some(("reload-lost", format!("widened windows, two threads, round {round}: {kb} was loaded, then changed and notified, then hot_reload was called 300 times while another thread was calling it too: the change was never applied")));
+                break;
+            }
+            if b_first != 1 {
+                lost = Some(("hot-reload-returned-before-notified-change", format!("widened windows, two threads, round {round}: {kb} was loaded, changed and notified before hot_reload was called (another thread calling it too); the change was applied only {calls} call(s) later")));
+                break;
+            }
+        }
+        stop.store(true, std::sync::atomic::Ordering::SeqCst);
+        verif::set_schedule_hook(None);
+        lost
+    });
+    if let Some((sig, what)) = lost {
+        out.fail(sig, what);
+        return;
+    }
     out.label("widened-reloader-windows");
 }
 
